@@ -27,7 +27,7 @@ CFG = {
     },
     "n": {"quick": 1500, "thorough": 60000},
     "exhaustive": {"quick": False, "thorough": True},
-    "rule": "corpus (17 hand-built + 25 sampled scenes + 35 wide-literal scenes + 30 cases on restricted views); "
+    "rule": "corpus (17 hand-built + 25 sampled scenes + 35 wide-literal scenes + 30 cases on restricted views + 42 minimal length-target scenes); "
             "EVERY case below is run twice: on a plain ParseBuffer and (case tag `vw`) on a RESTRICTED VIEW whose window is the case's buffer inside a larger allocation - bytes in front of the window "
             "1 / 7 / 11 / 1000 (also 0, 2, 3, 5, 13, 64; a header and complete objects, or random bytes) x chain of restrictions {RestrictView, RestrictViewFrom, From then View, View then View with junk "
             "on both sides of the inner window, View then From, View starting at 0 then From, View-From-View} x bytes behind the window that CONTINUE the scene {filler up to a declared length that runs beyond the "
@@ -39,12 +39,20 @@ CFG = {
             "or a neighbour (k in 1,2,3,2^31,2^62,2^63-1,2^64,2^64+1; t in len,len+1,len-1) + 27 boundary literals (+-(2^63-1), +-2^63, -2^63-1, 2^63+len, +-(2^64-1), +-2^64, +-(2^32+len), +-10^19, +-10^30, "
             "+-(2^127-1), +-2^127, 2^128+len, 10^39) x {direct (plain / `+` / leading zeros / `-`), value of the object referenced by /Length (defined before), forward reference then re-parse}, "
             "all with valid framing so that the verdict depends on the length alone; plus numbers above 2^63-1 as object number / generation of the reference and of the `n g obj` header "
-            "(quick: 4 payloads, thorough: 10); systematic grid: 10 payloads (benign, `endstream endobj xx`, LF endstream LF endobj LF, "
+            "(quick: 4 payloads, thorough: 10); "
+            "the object referenced by `/Length 7 0 R`, of EVERY kind (values: Spec/FramingKinds.lean; expectation: Framing.resolve = the executable LenRes, no new clause), each DEFINED in the context before the stream is parsed "
+            "and, second variant, after a first parse of the stream (needs more context) followed by a re-parse under another number: integers (len, len+1, len+7, -len, -(len+1), 2^63-1, -2^63, 2^63, 2^64+len, -(2^64-len), 2^127+len), "
+            "reals `len.0` `len.5` `-len.0` `+len.00`, true, false, null, name `/len`, literal string `(len)`, hexadecimal string, array `[len]`, dictionary `<</Length len>>`, the seven values of the older table, "
+            "a stream object of that length, and a REFERENCE: chains 7 -> 8 -> ... of 2..5 references (defined in ascending and in descending order) ending in the integer len / len+1 / an undefined object / the real len.0 / a name; "
+            "7 0 -> 8 1 with (8,1) = len or only (8,0) defined; 7 0 -> 7 1 = len; a reference to the stream object being parsed; cycles (7 -> 7, 7 -> 8 -> 7 in both orders, a 3-cycle, 7 -> 8 -> 9 -> 8, 7 -> 8 -> 8) "
+            "- 83 shapes x 2 variants per payload (quick: 4 payloads, the cyclic shapes for 2 of them; thorough: 10), valid framing throughout; expected: accepted only when (7,0) is a non-negative integer that frames the data, "
+            "`needs more context` only when (7,0) ITSELF is undefined, rejected with another error otherwise - a reference is not an integer and is not followed, whatever its chain ends in "
+            "(an implementation that recurses on a cycle: crash:<rc> / hang recorded for the case, the run continues); systematic grid: 10 payloads (benign, `endstream endobj xx`, LF endstream LF endobj LF, "
             "an embedded complete stream object, binary with CR LF at both edges, empty, CR, ...) x declared length in {=, +1, +2, +1000, 2^63-1, -1, -n, n-1, 2, 0} "
             "x 6 spellings after `stream` (LF, CRLF, CR, none, SP LF, LF CR) x 7 before `endstream` (none, CR, LF, CRLF, SP, LF LF, CR CR) "
             "x {direct, backward reference, forward reference then re-parse} (thorough: full grid; quick: every 5th point plus half of the all-valid sub-grid); "
             "random scenes of 1-4 indirect objects over 4 identifiers (streams with direct/referenced/missing/non-integer lengths, one direct length in five and one length target in five written as 2^64+len / 2^126-len, escaped `/Len#67th` keys, "
-            "4x4 extra dictionary entries in 3 orders, 9 whitespace/comment spellings per gap, defective endstream/endobj keywords; plain objects as length targets; "
+            "4x4 extra dictionary entries in 3 orders, 9 whitespace/comment spellings per gap, defective endstream/endobj keywords; plain objects as length targets - one in five a reference to an identifier of the pool, so that chains and cycles of references arise, one in five another kind of Spec/FramingKinds.lean; "
             "identifier collisions), each followed by a one-byte mutation / deletion / insertion / truncation of its text (raw case). "
             "non-trivial = a stream whose payload contains endstream/endobj or begins/ends with CR/LF, or whose declared length differs from the payload length, "
             "or is negative, by reference, missing or not an integer, or any object with a number written outside the i64 range; raw: the mutated text still contains `stream`; a case on a view: the case is non-trivial and the window is a proper part of the allocation (distinct by case hash)",
@@ -55,6 +63,8 @@ CFG = {
         "BTreeMap<ObjectId,_> insert/get as a sorted association list with the lexicographic order of (usize,usize); Rc sharing ignored",
         "reused, proved elsewhere: token-parser and object-parser models (Model/Prim, Model/Obj; C15 LocOK, C16 parseObjB_good)",
         "64-bit usize: i64 -> usize conversion succeeds iff the value is >= 0",
+        "oracle of the length-target scenes: Spec/FramingKinds.lean (spelling and value of a plain object of each kind: reals, booleans, null, name, strings, array, dictionary, reference) on top of Spec/FramingWide.lean; "
+        "what a `/Length n g R` to such an object means is Framing.resolve, unchanged",
         "oracle of the wide-literal scenes: Spec/FramingWide.lean over Spec/NumLit.lean (what a point-free number token denotes); the model is proved to compute NumLit.denote on "
         "every number token (Parsley.C02.number_token_denotes, checked under C02); on scenes written inside the i64 range the judge checks at run time that this oracle and the original "
         "Framing.expectScene agree (class `oracle-disagreement`)",
